@@ -659,33 +659,48 @@ def _check_file(f, c, key, state="registered", bec2pair=None):
             if alen != dlen or total != len(expect):
                 return ("stored-lengths", "component %d: stored length %d declared %d, expected %d / %d" % (
                     i, total, alen, len(expect), dlen))
-    # read back with the key
-    rstream = io.StringIO(text)
-    if c["framing"] == "bec2":
-        rexts = exts + [ConfigSecurityCodeEncryptor(c["code"])]
-        rd = run_impl(lambda: Bec2File.read_file(rstream, rexts, True))
-        got_file = rd[1].bf3file if rd[0] == "ok" else None
-        if rd[0] == "ok" and rd[1].session_key != key:
-            return ("recover", "BEC2 read returned session key %s" % rd[1].session_key.hex())
-    else:
-        rd = run_impl(lambda: Bf3File.read_file(rstream, True, key))
-        got_file = rd[1] if rd[0] == "ok" else None
-    if rd[0] != "ok":
-        return ("recover", "reading the written file with the same key raised %s" % rd[1])
-    if len(got_file.components) != len(want):
-        return ("recover", "%d components read, %d written" % (len(got_file.components), len(want)))
-    for i, (g, (desc, blob, dlen, enc)) in enumerate(zip(got_file.components, want)):
-        if dict(g.description) != desc or g.actual_len != dlen:
-            return ("recover", "component %d: tags/declared length %r/%r, written %r/%r" % (
-                i, dict(g.description), g.actual_len, desc, dlen))
-        if enc:
-            if bytes(g.blob[:dlen]) != blob[:dlen] or len(g.blob) < dlen:
-                return ("recover", "component %d (len %d, declared %d): read back %s, original %s" % (
-                    i, len(blob), dlen, bytes(g.blob).hex(), blob.hex()))
-            if not g.encrypt_by_session_key:
-                return ("recover", "component %d read back without the encryption flag" % i)
-        elif bytes(g.blob) != blob:
-            return ("recover", "plain component %d changed: %s -> %s" % (i, blob.hex(), bytes(g.blob).hex()))
+    # read back with the key: MAC checking on and off, through a stream and (subset) a path
+    rexts = exts + [ConfigSecurityCodeEncryptor(c["code"])] if c["framing"] == "bec2" else None
+    vias = ("stream", "path") if (c.get("sink") == "path" or c.get("readpath")) else ("stream",)
+    for check in (True, False):
+        for via in vias:
+            how = "check_cmac=%s, %s" % (check, via)
+            tmpd = None
+            try:
+                if via == "path":
+                    tmpd = tempfile.mkdtemp(prefix="verif_c06_", dir="/var/tmp")
+                    src = os.path.join(tmpd, "in.bf3")
+                    with open(src, "w", newline="\r\n") as fh:
+                        fh.write(text)
+                else:
+                    src = io.StringIO(text)
+                if c["framing"] == "bec2":
+                    rd = run_impl(lambda: Bec2File.read_file(src, rexts, check))
+                    got_file = rd[1].bf3file if rd[0] == "ok" else None
+                    if rd[0] == "ok" and rd[1].session_key != key:
+                        return ("recover", "BEC2 read (%s) returned session key %s" % (how, rd[1].session_key.hex()))
+                else:
+                    rd = run_impl(lambda: Bf3File.read_file(src, check, key))
+                    got_file = rd[1] if rd[0] == "ok" else None
+            finally:
+                if tmpd:
+                    shutil.rmtree(tmpd, ignore_errors=True)
+            if rd[0] != "ok":
+                return ("recover", "reading the written file with the same key (%s) raised %s" % (how, rd[1]))
+            if len(got_file.components) != len(want):
+                return ("recover", "%d components read (%s), %d written" % (len(got_file.components), how, len(want)))
+            for i, (g, (desc, blob, dlen, enc)) in enumerate(zip(got_file.components, want)):
+                if dict(g.description) != desc or g.actual_len != dlen:
+                    return ("recover", "component %d (%s): tags/declared length %r/%r, written %r/%r" % (
+                        i, how, dict(g.description), g.actual_len, desc, dlen))
+                if enc:
+                    if bytes(g.blob[:dlen]) != blob[:dlen] or len(g.blob) < dlen:
+                        return ("recover", "component %d (len %d, declared %d), read with %s: got %s, original %s" % (
+                            i, len(blob), dlen, how, bytes(g.blob).hex(), blob.hex()))
+                    if not g.encrypt_by_session_key:
+                        return ("recover", "component %d read back (%s) without the encryption flag" % (i, how))
+                elif bytes(g.blob) != blob:
+                    return ("recover", "plain component %d changed (%s): %s -> %s" % (i, how, blob.hex(), bytes(g.blob).hex()))
     if c.get("scan"):
         needles = []
         for (desc, blob, dlen, enc) in want:
@@ -943,6 +958,7 @@ def search(ctx):
     #    flag, order, key, same object in a second file, set_config again), write again
     for i in range(ctx.budget(150, 3000) * (4 if hard else 1)):
         h = gen_history(r, "bec2" if i % 2 else "bf3")
+        h["readpath"] = (i % 4 == 0)
         ctx.case(("h", repr(h)))
         ctx.dist["s:history/%s" % h["framing"]] += 1
         try:
@@ -961,7 +977,7 @@ def search(ctx):
         "search (real plug-in): contents of length 1..64 (+65,79..81,255..257,1023) x trailing-zero runs 0..min(len,18) + all-zero, "
         "keys {zero, random, zero-tailed}, BF3 and BEC2 (customer-key block + update block) framing, declared length "
         "{len, len-zeros, len-1}; configurations through set_config; predicate: payload located by an independent parser == "
-        "independent AES-128-CBC(key, IV 0, zero-padded content), lengths, read back == original up to the declared length, "
+        "independent AES-128-CBC(key, IV 0, zero-padded content), lengths, read back (check_cmac True and False; stream, and path on a subset) == original up to the declared length, "
         "needle scan (8-byte windows of plaintext / session key / security code / customer key / wrapping key with >= 6 distinct "
         "bytes) over binary and text, and for plug-in states {unregistered, encrypt raising, mac raising, raising under the session "
         "key}: writing raises, no write() call / no file created; object histories (one object written, changed in place - content, "
